@@ -1,5 +1,6 @@
 """C15: context managers as decorators wrap every call in a fresh, paired context (concurrent calls)."""
 import builtins
+import contextlib
 import random
 
 import common
@@ -508,6 +509,65 @@ def run(tier, seed):
             rep.violation("decorator:model-mismatch", {"broken": "correspondence impl<->Model/Decorator.v (dexec): global event log", "case": sh[j][:4000]}, no_input=not rep.has_failing_input())
     rep.cov["traces_validated_against_impl"] = len(texts)
     rep.notes["model_mismatches"] = mism
+    # the arguments of the manager factory are the manager's business, whatever they are -- a coroutine function (an async
+    # callback), a class, None -- and the decorated callable may be any async callable (a callable object, a function
+    # returning a coroutine, a cached coroutine function), not only an `async def` function; compared with
+    # contextlib.asynccontextmanager used in the same way
+    import functools as _ft
+    from gencalc import drive as _drv
+
+    def decorate_variants(lib, cache_deco):
+        log = []
+
+        async def report(x):
+            log.append(("report", x))
+
+        @lib
+        async def notifying(callback, tag="default"):
+            log.append(("enter", tag))
+            try:
+                yield
+            finally:
+                await callback(tag) if callback is not None else None
+                log.append(("exit", tag))
+
+        async def plain(x):
+            log.append(("body", x))
+            return x + 1
+
+        class CallObj:
+            async def __call__(self, x):
+                log.append(("body", x))
+                return x + 1
+
+        def returns_coroutine(x):
+            return plain(x)
+        out = []
+        for arg in (report, None):
+            for name, fn in (("async def", plain), ("callable object", CallObj()), ("function returning a coroutine", returns_coroutine),
+                             ("partial", _ft.partial(plain)), ("cached", cache_deco(plain))):
+                del log[:]
+                try:
+                    deco = notifying(arg)
+                    wrapped = deco(fn)
+                    res = _drv(wrapped(5))
+                    out.append((name, arg is not None, "ok", res, list(log)))
+                except BaseException as e:  # noqa
+                    out.append((name, arg is not None, "raised", type(e).__name__, list(log)))
+        return out
+    try:
+        got = decorate_variants(a.contextmanager, a.lru_cache)
+        want = decorate_variants(contextlib.asynccontextmanager, lambda f: f)
+        why = None
+        for g, w in builtins.zip(got, want):
+            if g != w:
+                why = "manager argument %s, decorated callable %r: asyncstdlib %r, contextlib %r" % ("a coroutine function" if g[1] else "None", g[0], g[2:], w[2:])
+                break
+    except BaseException as e:  # noqa
+        why = "failed with %r" % (e,)
+    rep.count(("decorator-argument-and-callable-kinds",), True)
+    if why:
+        rep.violation("decorator:argument-kinds", {"why": why})
     import kwprobe
     kwprobe.probe(rep, "decorated", "decorator:kwargs")
     kwprobe.probe(rep, "factory", "decorator:kwargs")
